@@ -126,6 +126,41 @@ fn ref_case(ctx: &mut Ctx, price: (u64, u64), size: u64) {
     check_result(ctx, "min_ref_script_fee", format!("min_ref_script_fee({}, {}/{})", size, price.0, price.1), got, &expect);
 }
 
+/// closed form of the same recursion, for tier counts far beyond what a transaction can carry:
+/// floor( p * (25600 * 5 * ((6/5)^k - 1) + rem * (6/5)^k) )
+pub fn ref_tier_fee_closed(price: (u64, u64), size: u64) -> NB {
+    let k = (size / 25_600) as u32;
+    let rem = size % 25_600;
+    let six = NB::from(6u32).pow(k);
+    let five = NB::from(5u32).pow(k);
+    let inner = NB::from(128_000u64) * (&six - &five) + NB::from(rem) * &six;
+    (NB::from(price.0) * inner).div_floor(&(NB::from(price.1) * five))
+}
+
+/// tiny prices x tier counts up to the largest a 32-bit size can name: the exact fee is small (or
+/// just overflows) although the multiplier 1.2^k is astronomically large
+fn sc_ref_far(ctx: &mut Ctx) {
+    const TINY: [(u64, u64); 8] = [(1, 1_000_000_000_000_000), (1, u64::MAX), (1, 1 << 40), (1, 145_000), (1, 1_000_000), (3, 1 << 62), (u64::MAX, u64::MAX), (0, 7)];
+    let mut ks: Vec<u64> = (236..=252).collect();
+    ks.extend([300, 512, 1000, 1001, 4096, 10_000, 65_535, 65_536, 100_000, 167_771]);
+    let price = TINY[ctx.choose_free(TINY.len())];
+    let k = ks[ctx.choose_free(ks.len())];
+    let d = ctx.choose_free(4) as u64 * 8_533;
+    let size = k * 25_600 + d;
+    if size > u32::MAX as u64 {
+        return;
+    }
+    let expect = ref_tier_fee_closed(price, size);
+    if k <= 252 && ref_tier_fee(price, size) != expect {
+        crate::engine::machinery("closed form and recursion of the reference-script fee disagree");
+    }
+    ctx.hit(if k >= 245 { "far:>=245-tiers" } else { "far:<245-tiers" });
+    ctx.observe(&(price, size));
+    ctx.set_sample(|| format!("min_ref_script_fee(size={} = {} tiers + {}, price={}/{})", size, k, d, price.0, price.1));
+    let got = guard(|| min_ref_script_fee(size as usize, &ui(price)));
+    check_result(ctx, "min_ref_script_fee", format!("min_ref_script_fee({}, {}/{})", size, price.0, price.1), got, &expect);
+}
+
 fn sc_ref_boundaries(max_k: usize) -> impl Fn(&mut Ctx) + Sync {
     move |ctx: &mut Ctx| {
         let pi = ctx.choose_free(PRICES.len());
@@ -264,6 +299,7 @@ pub fn scenario(name: &str, tier: Tier) -> Option<BoxedScenario> {
     Some(match name {
         "ref_all_sizes" => Box::new(sc_ref_all_sizes),
         "ref_boundaries" => Box::new(sc_ref_boundaries(if tier.thorough() { 1000 } else { 200 })),
+        "ref_far" => Box::new(sc_ref_far),
         "ex_units" => Box::new(sc_ex_units),
         "script_fee" => Box::new(sc_script_fee),
         "linear" => Box::new(sc_linear),
@@ -274,16 +310,16 @@ pub fn scenario(name: &str, tier: Tier) -> Option<BoxedScenario> {
 
 pub fn run(tier: Tier, seed: u64) -> i32 {
     let mut rep = Report::new(P, tier, seed);
-    rep.rule = "full products: (price x every size 0..=204800), (price x tier k x offset -2..2), (mem x steps x price pairs), redeemer lists <= 3, (size x coefficient x constant); distinct = distinct (arguments, expected) tuples".into();
+    rep.rule = "full products: (price x every size 0..=204800), (price x tier k x offset -2..2), (8 tiny prices x 27 tier counts from 236 to 167771 x 4 offsets, closed-form reference), (mem x steps x price pairs), redeemer lists <= 3, (size x coefficient x constant); distinct = distinct (arguments, expected) tuples".into();
     rep.assume("price denominators >= 1 (a zero denominator has no mathematical value; not in the domain)");
-    rep.assume("sizes beyond 1000 tiers (25.6 MB of reference scripts) are not enumerated; the per-transaction ledger limit is 204800 bytes (8 tiers), which is covered for every size");
+    rep.assume("between 1000 tiers and the largest 32-bit size only the listed tier counts are explored; the per-transaction ledger limit is 204800 bytes (8 tiers), which is covered for every size");
     rep.trusted_base = vec!["num-bigint arbitrary-precision integers (reference arithmetic)".into(), "transcription of the ledger's tierRefScriptFee recursion (notes/ledger_rules.md)".into()];
-    rep.required_hits = vec!["tier0", "tier1", "tier2-7", "tier8", "tier9+", "on-boundary", "zero-price", "ok-result", "err-on-overflow", "exunit-total-overflow", "ceil-no-remainder", "ceil-with-remainder"];
+    rep.required_hits = vec!["tier0", "tier1", "tier2-7", "tier8", "tier9+", "on-boundary", "zero-price", "ok-result", "err-on-overflow", "exunit-total-overflow", "ceil-no-remainder", "ceil-with-remainder", "far:>=245-tiers", "far:<245-tiers"];
     let opts = Opts::new(seed);
     let max_k = if tier.thorough() { 1000 } else { 200 };
     rep.bound("ref_all_sizes", json!("sizes 0..=204800 x 12 prices"));
     rep.bound("ref_boundaries_max_tier", json!(max_k));
-    for name in ["ref_all_sizes", "ref_boundaries", "ex_units", "script_fee", "linear", "linear_tx"] {
+    for name in ["ref_all_sizes", "ref_boundaries", "ref_far", "ex_units", "script_fee", "linear", "linear_tx"] {
         let f = scenario(name, tier).unwrap();
         let st = explore(name, &*f, &opts);
         rep.add(name, "full product (no deviation bound)", st);
